@@ -29,9 +29,9 @@ func gen(t *rapid.T) txm.Case { return txm.Gen(t, profile) }
 
 func TestCheck(t *testing.T) {
 	s := &pbt.Suite{ID: "C04", Level: "exploration",
-		Rule: "rapid-generated transactional histories (5..70 steps, <=8 keys, values 0..3000 bytes) with MaxBatchCount in {4,8}, MaxBatchSize in {2048,4096} and a hot-key write limit in {0,3,6}, so Set fails with too-big/throttled and Commit fails with conflict/too-big; maintenance and reopen in between; the memtable is 8 MiB or, in half of the cases, 16/32 KiB so that commits straddle automatic memtable rotations. Oracle: after a nil Commit every write of the transaction is visible to a fresh reader at one common version (key iterator) that is greater than every earlier commit version; a transaction opened before sees none of them; after an error from Set the other writes are unaffected, after an error from Commit none of its writes is visible to any later reader (all keys re-read after every failed commit, after maintenance and after reopen). Spec bulk: 20..90 transactions of 1..6 writes against a 16..64 KiB memtable (values 1..3000 bytes, value threshold 512 or off), so commit batches straddle automatic memtable and value-log rotations; after every nil Commit its keys, and at the end / after reopen all keys, are read back. Spec sched: 2..4 workers x 1..4 transactions (own keys, optional read+write of a shared key, writes sized -3..20 bytes around the batch limit, readers) released one yield point at a time (orc.readTs.*, orc.commitTs.afterAlloc, txn.commit.beforeSend, orc.doneCommit) by a generated choice sequence; after a nil Commit a transaction begun afterwards must read every write at one version, versions of successful commits are pairwise distinct and increase in returned-before-called order, and refused transactions (conflict, too big at Set, too big after the timestamp was assigned) leave no key; non-trivial there = two commits overlapped in time and at least two succeeded. Non-trivial = history with a failed commit (any class) followed by a successful commit; distinct by case content.",
+		Rule: "rapid-generated transactional histories (5..70 steps, <=8 keys, values 0..3000 bytes) with MaxBatchCount in {4,8}, MaxBatchSize in {2048,4096} and a hot-key write limit in {0,3,6}, so Set fails with too-big/throttled and Commit fails with conflict/too-big; maintenance and reopen in between; the memtable is 8 MiB or, in half of the cases, 16/32 KiB so that commits straddle automatic memtable rotations. Oracle: after a nil Commit every write of the transaction is visible to a fresh reader at one common version (key iterator) that is greater than every earlier commit version; a transaction opened before sees none of them; after an error from Set the other writes are unaffected, after an error from Commit none of its writes is visible to any later reader (all keys re-read after every failed commit, after maintenance and after reopen). Spec bulk: 20..90 transactions of 1..6 writes against a 16..64 KiB memtable (values 1..3000 bytes, value threshold 512 or off), so commit batches straddle automatic memtable and value-log rotations; after every nil Commit its keys, and at the end / after reopen all keys, are read back. Spec sched: 2..4 workers x 1..4 transactions (own keys, optional read+write of a shared key, writes sized -3..20 bytes around the batch limit, readers) (a third of them committed through CommitWith, judged by the callback's argument) released one yield point at a time (orc.readTs.*, orc.commitTs.afterAlloc, txn.commit.beforeSend, orc.doneCommit) by a generated choice sequence; after a nil Commit a transaction begun afterwards must read every write at one version, versions of successful commits are pairwise distinct and increase in returned-before-called order, and refused transactions (conflict, too big at Set, too big after the timestamp was assigned) leave no key; non-trivial there = two commits overlapped in time and at least two succeeded. Non-trivial = history with a failed commit (any class) followed by a successful commit; distinct by case content.",
 		Assumptions: []string{"commit versions are observed through a verif accessor of the timestamp oracle (next timestamp - 1 right after Commit returns; single driver goroutine)",
-			"CommitWith callbacks and Close racing with a commit are exercised in C37/C34, not here"},
+			"CommitWith callbacks are exercised by the sched spec only (a third of its commits); Close racing with a commit is exercised in C37/C34, not here"},
 	}
 	pbt.Add(s, &pbt.Spec[txm.Case]{Name: "history", Gen: gen, Run: txm.Run, Quick: 400, Thorough: 30000, Shards: 16})
 	pbt.Add(s, &pbt.Spec[ioCase]{Name: "iofault", Gen: genIO, Run: runIO, Quick: 240, Thorough: 8000, Shards: 8})
